@@ -51,6 +51,7 @@ class Pipeline(Instance):
         self.cross = cross               # engine-vs-native cross-check of one concrete run (descriptor table + extracted samples)
         self.alts = alts                 # [(samples, splitters)]: the input set itself is an engine choice (one alternative per path)
         self.edits = tuple(edits)        # (kind in subst/del/ins/rc, sample index, contig index): one edit at EVERY position (engine choice) with a symbolic base
+        self.native_timeout = 2400       # real multi-threaded runs with level-19 zstd are slow in the dev profile; hangs are caught by the in-process watchdog
         self.native_profile = "release" if driver == "single" else "dev"      # the dev build panics in single-file mode (known finding F7)
         self.overflow_checks = driver != "single"      # single-file mode relies on wrapping i32 priorities (known finding F7): release semantics there
         self.required_witnesses = ("finalized",)
@@ -361,6 +362,8 @@ class Pipeline(Instance):
         for prof, o in outs.items():
             if self.driver == "single" and prof == "dev":
                 continue                # the dev build always panics in single-file mode (known finding F7): it cannot confirm anything else
+            if o.get("crash") == "timeout":
+                continue                # the whole replay process ran out of time (loaded machine): no verdict from this profile
             if "panic" in o or "crash" in o:
                 return True
             if o.get("timeout") and self.threads > 1 and str(o.get("why", "")).startswith("1 worker"):
